@@ -21,6 +21,7 @@ import ast
 from ..pm import AnalysisError, ClassInfo, FuncInfo, const_str, dotted, is_self_attr, norm, walk_no_nested, flatten_targets
 from ..prov import FuncFacts, Path
 from ..resolve import Ctx, calls_in, reachable
+from ..cfg import always_exits
 from .c05 import transformer_classes
 
 GROW_METHODS = {"append", "extend", "insert", "add", "update", "setdefault", "appendleft"}
@@ -104,6 +105,7 @@ def check(chk):
     _rbw(chk, persistent)
     _isolate(chk)
     _alias(chk)
+    _query_mutates(chk)
     _borrowed(chk)
     _refit_borrowed(chk)
     _defaults(chk)
@@ -192,26 +194,58 @@ class _RBW:
         self._active.add(fn.qualname)
         saved = getattr(self, "_returns", None)
         self._returns = []
+        entry_ctx = frozenset(getattr(self, "_ctx", frozenset()))
         try:
             out = self.block(fn, fn.node.body, state)
-            outs = list(self._returns) + ([out] if out is not None else [])
+            outs = list(self._returns) + ([(out, frozenset(getattr(self, "_last_ctx", frozenset())))] if out is not None else [])
         finally:
             self._active.discard(fn.qualname)
             self._returns = saved
+            self._ctx = entry_ctx
         if not outs:
             return state  # the function always raises
-        res = outs[0]
-        for o in outs[1:]:
+        res = outs[0][0]
+        for o, _ in outs[1:]:
             res = res & o
-        return res
+        # exits taken under opposite values of one stable flag (`if not self.flag: return ...`): what only the
+        # exits under one value assign is remembered as assigned-under-that-value
+        plain = lambda S: {x for x in S if not isinstance(x, tuple)}
+        flags = {f for _, c in outs for f, _ in (c - entry_ctx)}
+        for f in flags:
+            pos = [o for o, c in outs if (f, True) in c]
+            neg = [o for o, c in outs if (f, False) in c]
+            if len(pos) + len(neg) != len(outs) or not pos or not neg:
+                continue
+            A = set.intersection(*[plain(o) for o in pos])
+            B = set.intersection(*[plain(o) for o in neg])
+            res = res | {(x, frozenset({(f, True)})) for x in A - B} | {(x, frozenset({(f, False)})) for x in B - A}
+        return frozenset(res)
 
     # returns state after the block or None if the block cannot fall through
+    @staticmethod
+    def _flag_of(self_F, t):
+        if is_self_attr(t) and t.attr not in self_F:
+            return (t.attr, True)
+        if isinstance(t, ast.UnaryOp) and isinstance(t.op, ast.Not) and is_self_attr(t.operand) and t.operand.attr not in self_F:
+            return (t.operand.attr, False)
+        return None
+
     def block(self, fn, stmts, state):
-        for st in stmts:
-            state = self.stmt(fn, st, state)
-            if state is None:
-                return None
-        return state
+        saved = frozenset(getattr(self, "_ctx", frozenset()))
+        try:
+            for st in stmts:
+                state = self.stmt(fn, st, state)
+                if state is None:
+                    return None
+                if isinstance(st, ast.If) and not st.orelse and always_exits(st.body):
+                    flag = self._flag_of(self.F, st.test)
+                    if flag:
+                        # early exit: the rest of the block runs under the negated flag
+                        self._ctx = frozenset(getattr(self, "_ctx", frozenset())) | {(flag[0], not flag[1])}
+            self._last_ctx = frozenset(getattr(self, "_ctx", frozenset()))
+            return state
+        finally:
+            self._ctx = saved
 
     def reads(self, fn, node, state, skip_targets=()):
         ctx = Ctx(self.pm, fn, self.cls)
@@ -321,7 +355,7 @@ class _RBW:
         if isinstance(st, ast.Return):
             if st.value is not None:
                 state = self.reads(fn, st.value, state)
-            self._returns.append(state)
+            self._returns.append((state, frozenset(getattr(self, "_ctx", frozenset()))))
             return None
         if isinstance(st, ast.Raise):
             return None
@@ -529,6 +563,58 @@ def _alias(chk):
                     and st.value.attr in mutable_attrs and st.value.attr != st.targets[0].attr:
                 chk.violation("HIST.alias", fn, st, why=f"self.{st.targets[0].attr} aliases the mutable container self.{st.value.attr}")
     chk.ok("HIST.alias", "xeofs", None, construct=f"<{n} mutable container initialisations examined>", nontrivial=False)
+
+
+def _query_mutates(chk):
+    """queries must not change the fitted results: outside the fit / compute paths no entry of a result container is
+    modified in place (augmented assignment, item assignment, .values/.data assignment) or replaced"""
+    pm = chk.pm
+    base = pm.cls("xeofs.base_model.BaseModel")
+    n = 0
+    for cls in pm.concrete_models():
+        fitpath: set[str] = set()
+        for e in _fit_entries(cls):
+            for fn in self_closure(pm, cls, e):
+                fitpath.add(fn.qualname)
+        for nm in ("compute", "_post_compute", "deserialize", "_deserialize_attrs", "load", "__init__"):
+            m = cls.resolve(nm)
+            if m is not None:
+                for fn in self_closure(pm, cls, m):
+                    fitpath.add(fn.qualname)
+        names = set()
+        for c in cls.mro:
+            names |= set(c.methods)
+        for nm in sorted(names):
+            m = cls.resolve(nm)
+            if m is None or m.qualname in fitpath or m.name.startswith("__"):
+                continue
+            ff = FuncFacts.of(m)
+            bad = []
+            for st in walk_no_nested(m.node):
+                tgt = None
+                if isinstance(st, ast.AugAssign):
+                    tgt = st.target if not isinstance(st.target, ast.Subscript) else st.target.value
+                elif isinstance(st, ast.Assign):
+                    for t in st.targets:
+                        if isinstance(t, ast.Subscript) and dotted(t.value) in ("self.data", "self.model_data"):
+                            bad.append((st, f"{dotted(t.value)}[...] is replaced"))
+                        elif isinstance(t, ast.Subscript):
+                            tgt = t.value
+                        elif isinstance(t, ast.Attribute) and t.attr in ("values", "data") and not is_self_attr(t):
+                            tgt = t.value
+                if tgt is None:
+                    continue
+                for p in ff.paths(tgt, spine_only=True):
+                    ck = p.container_key()
+                    if ck is not None and ck[0] in ("self.data", "self.model_data") and not any(o.kind in FRESH_OPS for o in p.ops[1:]):
+                        bad.append((st, f"{ck[0]}[{ck[1]!r}] is modified in place"))
+            n += 1
+            for st, what in bad[:2]:
+                chk.violation("HIST.query_mutates", m, st, context=cls.name,
+                              why=f"{what} by the query {m.name}(): the next call of any accessor returns different results although the model was not refitted")
+            if not bad:
+                chk.ok("HIST.query_mutates", m, None, context=cls.name, construct=f"{cls.name}.{m.name}: does not modify stored results", nontrivial=False)
+    chk.info["query_methods_examined"] = n
 
 
 def _refit_borrowed(chk):
